@@ -31,6 +31,7 @@ impl PlanBuilder {
             prefix: vec![],
             expand_only: false,
             engine: engine.into(),
+            probe: None,
         });
         if split {
             self.split.insert(id);
@@ -54,6 +55,7 @@ impl PlanBuilder {
                 prefix: vec![],
                 expand_only: false,
                 engine: "SEQ".into(),
+                probe: None,
             });
         }
     }
@@ -87,6 +89,7 @@ impl PlanBuilder {
                     prefix: vec![],
                     expand_only: false,
                     engine: "SEQ".into(),
+                probe: None,
                 });
             }
         }
@@ -103,6 +106,7 @@ pub fn plan(property: &str, tier: &str) -> Option<CheckSpec> {
     ];
     let rule_text;
     let bound_text;
+    let mut external: Option<(String, Vec<String>)> = None;
     match property {
         "C01" => {
             let rules = [Rule::Liveness, Rule::NoPanic, Rule::Deliver, Rule::Prompt, Rule::NoExtra];
@@ -421,6 +425,7 @@ pub fn plan(property: &str, tier: &str) -> Option<CheckSpec> {
                         prefix: vec![],
                         expand_only: false,
                         engine: "SEQ".into(),
+                probe: None,
                     });
                 }
             }
@@ -512,6 +517,57 @@ pub fn plan(property: &str, tier: &str) -> Option<CheckSpec> {
             bound_text = format!("call sequences <= {}; scenarios: preemptions <= {bound}", g.max_len);
             assumptions.push("harness built with debug assertions and overflow checks on (as the test suite's dev profile); a call that does not return within 20 s counts as blocked".into());
         }
+        "C16" => {
+            let rules = [Rule::Liveness, Rule::NoPanic, Rule::Lazy, Rule::Elapsed, Rule::Ctx, Rule::NoExtra, Rule::Deliver];
+            let mut g = GenCfg::base("C16-nonrecording");
+            g.traces = vec![TraceOpt { trace: 0x16A, sampled: true, remote_parent: 0 }];
+            g.max_spans = 3;
+            g.max_parents = 2;
+            g.dup_parent = true;
+            g.allow_noop = true;
+            g.allow_inert_local = true;
+            g.allow_scope = true;
+            g.allow_lc = true;
+            g.max_sets = 1;
+            g.max_depth = 2;
+            g.max_locals = 2;
+            g.max_attach = 2;
+            g.handle_attach = true;
+            g.local_attach = true;
+            g.creation_props = true;
+            g.allow_child_local = true;
+            g.observe = true;
+            g.elapsed = true;
+            g.to_records = true;
+            g.max_len = if quick { 4 } else { 5 };
+            let mut progs = Vec::new();
+            generate(&g, 3_000_000, &mut |p| {
+                progs.push(p.collector(0, true, 0));
+                true
+            });
+            let n1 = progs.len();
+            b.add_batch(progs.clone(), false, false, &rules);
+            // the same programs in a process that never installs a reporter: nothing records
+            b.add_batch(progs, false, true, &rules);
+            // spans created before the reporter exists, used and finished after it was installed
+            let id = b.jobs.len();
+            b.jobs.push(Job {
+                id,
+                programs: vec![],
+                cancelable: false,
+                no_reporter: true,
+                bound: None,
+                rules: vec![],
+                max_execs: 1,
+                prefix: vec![],
+                expand_only: false,
+                engine: "SEQ".into(),
+                probe: Some("late-reporter".into()),
+            });
+            rule_text = format!("enabled build: {n1} generated call sequences over no-op-derived spans, scope-less local operations and ordinary spans, every closure counted, run with a reporter and in a process without one, plus a probe that creates spans before the reporter is installed and uses them afterwards; disabled build (fastrace without `enable`): all call sequences up to length {} over 30 public operations", if quick { 3 } else { 4 });
+            bound_text = format!("enabled: <= {} operations; disabled: sequences <= {}", g.max_len, if quick { 3 } else { 4 });
+            external = Some((format!("{}/target-disabled/release/vx-disabled", crate::check::verif_root()), vec![(if quick { "3" } else { "4" }).to_string()]));
+        }
         _ => return None,
     }
     Some(CheckSpec {
@@ -524,6 +580,7 @@ pub fn plan(property: &str, tier: &str) -> Option<CheckSpec> {
         assumptions,
         bound_text,
         exhaustive_claim: true,
+        external,
         wall_cap: Duration::from_secs(if quick { 120 } else { 3600 }),
     })
 }
